@@ -247,6 +247,13 @@ func (s String) Without(value Value) Set {
 			newS[i] = -1
 			s = String{s: newS, offset: s.offset, holes: s.holes + 1}
 		}
+		// Trim holes exposed at either end.
+		for len(s.s) > 0 && s.s[0] < 0 {
+			s = String{s: s.s[1:], offset: s.offset + 1, holes: s.holes - 1}
+		}
+		for len(s.s) > 0 && s.s[len(s.s)-1] < 0 {
+			s = String{s: s.s[:len(s.s)-1], offset: s.offset, holes: s.holes - 1}
+		}
 	}
 	if s.Count() == 0 {
 		return None
